@@ -163,7 +163,9 @@ func parseEndpointFunc(arg ast.Expr, pkg *packages.Package) (body *ast.BlockStmt
 			panic(fmt.Sprintf("unsupported identifier %s for %s", obj, ident))
 		}
 	} else if fnLitt, ok := arg.(*ast.FuncLit); ok {
-		return fnLitt.Body, fmt.Sprintf("Anonymous%d", arg.Pos()), pkg
+		// name it after its offset in the file : a token.Pos also depends on the order
+		// in which the files of the package were parsed, which changes from run to run
+		return fnLitt.Body, fmt.Sprintf("Anonymous%d", pkg.Fset.Position(arg.Pos()).Offset), pkg
 	}
 
 	panic(fmt.Sprintf("unsupported handler function %s", arg))
